@@ -533,6 +533,9 @@ def r14b(ctx):
 LOSSY = {"split", "rsplit", "strip", "lstrip", "rstrip", "lower", "upper", "casefold", "title", "capitalize", "swapcase", "replace", "translate",
          "expandtabs", "removeprefix", "removesuffix", "partition", "rpartition", "splitlines", "sub", "subn", "normalize", "center", "ljust", "rjust", "zfill"}
 
+# free functions of the standard library that rewrite a string (from unicodedata, re, html, urllib.parse, xml.sax.saxutils, textwrap, shlex)
+LOSSY_FUNCS = {"normalize", "sub", "subn", "escape", "unescape", "quote", "unquote", "quoteattr", "dedent", "shorten", "casefold"}
+
 _FIXTURE_D = '''
 def compile_bad(path):
     return XPath(" ".join(path.split()))
@@ -543,7 +546,17 @@ def lookup_bad(self, name):
 def lookup_ok(self, name):
     query = f"descendant::text:bookmark[@text:name={xpath_string_literal(name)}]"
     return self.get_element(query)
+def lookup_nfc(self, name):
+    key = normalize("NFC", name)
+    return self.get_element(f"descendant::text:bookmark[@text:name={xpath_string_literal(key)}]")
 '''
+
+
+def _lossy_call(c: ast.Call) -> bool:
+    """`x.strip()`, `re.sub(…)`, `unicodedata.normalize(…)` and the same functions imported by name (`normalize("NFC", x)`)."""
+    if isinstance(c.func, ast.Attribute):
+        return c.func.attr in LOSSY and not isinstance(c.func.value, ast.Constant)
+    return isinstance(c.func, ast.Name) and c.func.id in LOSSY_FUNCS and bool(c.args)
 
 
 def _rewrites(node, sink_exprs, lf, q):
@@ -557,7 +570,7 @@ def _rewrites(node, sink_exprs, lf, q):
         names = set(str_sources(e, q))
         for c in ast.walk(e):
             if isinstance(c, ast.Call):
-                if isinstance(c.func, ast.Attribute) and c.func.attr in LOSSY and not isinstance(c.func.value, ast.Constant):
+                if _lossy_call(c):
                     out.append(c)
                 # what is handed to a quoting helper / query builder is part of the query too
                 for a in list(c.args) + [k.value for k in c.keywords]:
@@ -597,6 +610,19 @@ def r14d(ctx):
             ctx.report("R14d", f, c, f"{norm(c, 60)} on the way to an XPath sink",
                        f"{f.ident} rewrites a string that becomes (part of) an XPath query with `.{c.func.attr}()`: identifiers that differ only in what the "
                        f"transformation erases are looked up as one, while the stored attribute keeps the original spelling")
+    # the query builders themselves: whatever they compute becomes query text, so nothing in them rewrites a non-constant string
+    # (the quoting helper is excluded: its own split/join is the object of R14a/R14c)
+    quoting = {g.name for g in flow.funcs if "literal" in g.name}
+    for f in flow.funcs:
+        if f.name not in flow.query_returning or f.name in quoting or f.name != "make_xpath_query" and not any(
+                isinstance(x, ast.JoinedStr) or isinstance(x, ast.Constant) and isinstance(x.value, str) and "::" in x.value for x in ast.walk(f.node)):
+            continue
+        bad = [c for c in walk_no_nested(f.node) if isinstance(c, ast.Call) and _lossy_call(c)]
+        ctx.instance("R14d", f"{f.file}:{f.ident}", "query builder: no lossy transformation of what it assembles", ok=not bad, nontrivial=True, line=f.node.lineno)
+        for c in bad[:2]:
+            ctx.report("R14d", f, c, f"{norm(c, 60)} inside the query builder",
+                       f"{f.ident} builds query text and rewrites part of it with `{norm(c.func, 30)}()`: the attribute was stored with the caller's spelling, "
+                       f"so identifiers that the transformation changes are no longer found under the name they were given")
     # fixture
     tree = ast.parse(_FIXTURE_D)
     got = {}
@@ -605,7 +631,7 @@ def r14d(ctx):
             node = fn
         cs = [n for n in ast.walk(fn) if isinstance(n, ast.Call) and call_name(n) in BASE_SINKS]
         got[fn.name] = len(_rewrites(fn, [c.args[0] for c in cs], LocalFlow(_F, q), q))
-    if got != {"compile_bad": 1, "lookup_bad": 1, "lookup_ok": 0}:
+    if got != {"compile_bad": 1, "lookup_bad": 1, "lookup_ok": 0, "lookup_nfc": 1}:
         raise AnalysisError(f"R14d fixture: rewrite detector broken: {got}")
 
 
@@ -736,8 +762,10 @@ def run(ctx):
     r14d(ctx)
     r14e(ctx)
     # a named range is found under its table name only if the address writer and reader agree on how that name is quoted (rule shared with C19)
-    from .c19 import r19b
+    from .c19 import r19b, r19f
     r19b(ctx)
+    # a lookup by (table) name matches that name only: membership in a list of names, never a substring test on the name itself (rule shared with C19)
+    r19f(ctx)
 
 
 from ..selftest import Seed, unparse_seed  # noqa: E402
@@ -754,6 +782,12 @@ SEEDS = [
          '            "descendant::text:bookmark", position, text_name=name', '            "descendant::text:bookmark", position, text_name=name.strip()', "R14d"),
     Seed("xpath_compile lower-cases through a local", "fault", _EL,
          "    return XPath(path, namespaces=ODF_NAMESPACES, regexp=False)", "    text = path.casefold()\n    return XPath(text, namespaces=ODF_NAMESPACES, regexp=False)", "R14d"),
+    Seed("make_xpath_query NFC-normalises the value it quotes", "fault", _XQ,
+         'from .style_constants import FAMILY_ODF_STD\n', 'from unicodedata import normalize\n\nfrom .style_constants import FAMILY_ODF_STD\n', "R14d",
+         edits=[(_XQ, '            query.append(f"[@{qname}={xpath_string_literal(value)}]")', '            value = normalize("NFC", str(value))\n            query.append(f"[@{qname}={xpath_string_literal(value)}]")')]),
+    Seed("make_xpath_query trims the keyword it files", "fault", _XQ, 'attributes["text:name"] = text_name', 'attributes["text:name"] = text_name.strip()', "R14d"),
+    Seed("make_xpath_query converts the value with str() first", "neutral", _XQ,
+         '            query.append(f"[@{qname}={xpath_string_literal(value)}]")', '            shown = str(value)\n            query.append(f"[@{qname}={xpath_string_literal(shown)}]")'),
     Seed("xpath_compile binds the query to a local first", "neutral", _EL,
          "    return XPath(path, namespaces=ODF_NAMESPACES, regexp=False)", "    text = str(path)\n    return XPath(text, namespaces=ODF_NAMESPACES, regexp=False)"),
     Seed("make_xpath_query pastes value between quotes again", "fault", _XQ,
